@@ -578,6 +578,9 @@ class Interp(object):
                 l, r = r, l
             if isinstance(l, ast.List) and len(l.elts) == 1 and O.const_of(l.elts[0]) is not None:
                 return ('pad', O.const_of(l.elts[0]), self.aff(r, env))
+            if isinstance(l, ast.List) and len(l.elts) == 1 and isinstance(l.elts[0], ast.Name) and isinstance(env.get(l.elts[0].id), tuple) and env[l.elts[0].id][:1] == ('c',):
+                # [c] * m with c a local that holds a constant
+                return ('pad', ('c', env[l.elts[0].id][1]), self.aff(r, env))
         return None
 
     def concat(self, x, y):
@@ -624,6 +627,18 @@ class Interp(object):
                     raise Unknown('keyword of %s' % ast.unparse(e)[:40])
                 return self.reduce_slice(e.func.id, e.args[0], env, e.lineno, default=(self.term(dflt[0], env) if dflt else None))
             return mk(e.func.id, [self.term(a, env) for a in e.args])
+        if isinstance(e, ast.Call) and ast.unparse(e.func) in ('reduce', 'functools.reduce') and len(e.args) in (2, 3) and isinstance(e.args[0], ast.Name) and e.args[0].id in ('min', 'max') \
+                and not e.keywords:
+            # reduce(op, xs, init): op over init and the elements; without init the sequence must not be empty (the obligation of op(xs))
+            op = e.args[0].id
+            xs = e.args[1]
+            if isinstance(xs, ast.Name) and isinstance(env.get(xs.id), tuple) and env[xs.id][:1] == ('gen',):
+                xs = env[xs.id][1]
+            if len(e.args) == 3:
+                init = self.term(e.args[2], env)
+                red = self.reduce_slice(op, xs, env, e.lineno, default=NEUTRAL[op])
+                return mk(op, [init, red])
+            return self.reduce_slice(op, xs, env, e.lineno)
         if isinstance(e, ast.Subscript) and not isinstance(e.slice, ast.Slice):
             s = self.seq(e.value, env)
             i = self.aff(e.slice, env)
@@ -1169,6 +1184,26 @@ def _run_path(it, func_node, body, conds):
                             raise Unknown('ring buffer %s starts from `%s`' % (tg.id, ast.unparse(v.args[0])[:40]))
                         fill = ('c', pd[1][1])
                     env[tg.id] = ('deque', M, fill)
+                    continue
+                if isinstance(v, ast.Call) and ast.unparse(v.func) in ('itertools.chain', 'chain') and v.args and all(it.range_of(a_, env) is not None for a_ in v.args):
+                    # chain(range(..), range(..)): the positions of the first range followed by those of the second
+                    env[tg.id] = ('chain', list(v.args))
+                    continue
+                if isinstance(v, ast.ListComp) and len(v.generators) == 1 and isinstance(v.generators[0].iter, ast.Name) and isinstance(env.get(v.generators[0].iter.id), tuple) \
+                        and env[v.generators[0].iter.id][:1] == ('chain',) and not v.generators[0].ifs:
+                    # one comprehension per chained range, concatenated
+                    import copy as _copy
+                    parts = []
+                    for rng_ in env[v.generators[0].iter.id][1]:
+                        cp = _copy.deepcopy(v)
+                        cp.generators[0].iter = _copy.deepcopy(rng_)
+                        ast.copy_location(cp, v)
+                        ast.fix_missing_locations(cp)
+                        parts.append(_comprehension(it, cp, env))
+                    acc = parts[0]
+                    for nxt in parts[1:]:
+                        acc = it.concat(acc, nxt)
+                    env[tg.id] = acc
                     continue
                 if isinstance(v, ast.ListComp) and it.const_list(v, env) is None:
                     env[tg.id] = _comprehension(it, v, env)
@@ -1873,6 +1908,10 @@ def summarize_online(ix, cls, facts=()):
             def elem(kk, src=src, M=M, fill=fill):
                 return _with_fill(src.elem(t - (M - Aff.const(1)) + kk), low=fill)
             e2[tgt] = Seq(M, elem, 'ring(%s)' % tgt)
+            continue
+        if isinstance(s, ast.Assign) and len(s.targets) == 1 and isinstance(s.targets[0], ast.Name) and isinstance(s.value, (ast.GeneratorExp, ast.ListComp)):
+            # a comprehension bound to a name and reduced later: evaluated where it is consumed
+            e2[s.targets[0].id] = ('gen', s.value)
             continue
         if isinstance(s, ast.Assign) and len(s.targets) == 1 and isinstance(s.targets[0], ast.Name):
             # a parameter name may be reused as a temporary afterwards
